@@ -62,6 +62,8 @@ func runPgSequence(ops []pgOp, seq int, out *ndw, kinds map[string]int) {
 				e = p.Start(ctx)
 			case "stop":
 				e = p.Stop(ctx)
+			case "close":
+				e = p.Close(ctx) // ends an explicit transaction like Stop (the fake's connection stays usable)
 			case "abort":
 				p.Abort(ctx)
 			case "put":
@@ -150,8 +152,10 @@ func cmdPgRandom(args []string) error {
 				o = pgOp{Op: "get", K: keys[rng.Intn(3)]}
 			case r < 88:
 				o = pgOp{Op: "start", K: "-"}
-			case r < 95:
+			case r < 93:
 				o = pgOp{Op: "stop", K: "-"}
+			case r < 96:
+				o = pgOp{Op: "close", K: "-"}
 			default:
 				o = pgOp{Op: "abort", K: "-"}
 			}
